@@ -1,44 +1,6 @@
-"""C01 - Mastering fidelity (DESIGN.md section 4, C01)."""
-from mc import master, ops
+"""C01 - Mastering fidelity (DESIGN.md section 4): MASTER-ENUM histories + growth chains with the master.oracle_roundtrip oracle."""
+from mc import master, ops, oracles
+from mc.props import _std
 
-PROP = 'C01'
-LEVEL = 'model_checking'
-ORACLES = [master.oracle_roundtrip]
-ASSUMPTIONS = [
-    'reference model mc/model.py states the documented meaning of each public call',
-    'pycdlib reads its own image (independent readers are C03/C08/C09/C10)',
-    'names/contents restricted to the alphabet of mc/ops.py:sigma1',
-]
-
-BOUNDS = {
-    'quick': [('quick', ops.CFG12, 2, 1), ('macro', ops.CFG12[3:4] + ops.CFG12[9:11], 1, 1)],
-    'thorough': [('quick', ops.CFG12, 3, 2), ('macro', ops.CFG12, 2, 1), ('quick', ops.CFG256, 2, 1)],
-}
-
-
-def tasks(tier):
-    out = []
-    for profile, cfgs, depth, k in BOUNDS[tier]:
-        out += master.make_tasks(cfgs, profile, depth, k)
-    return out
-
-
-def run_task(task):
-    return master.run_task(task, ORACLES)
-
-
-def check_case(case):
-    status, viols, info = master.evaluate(case, ORACLES)
-    return viols
-
-
-def coverage(tier, r):
-    return {
-        'states': len(r.sets.get('states', ())),
-        'transitions': r.n.get('transitions', 0),
-        'traces_validated_against_impl': r.n.get('executions', 0),
-        'bound': [{'profile': p, 'configs': len(c), 'depth': d} for p, c, d, k in BOUNDS[tier]],
-        'exhaustive': True,
-        'explanation': 'every history over sigma1 up to the depth bound, per configuration, executed on the real implementation; '
-                       'states = distinct (model state, image digest) pairs',
-    }
+_std.install(globals(), 'C01', 'model_checking', [master.oracle_roundtrip], _std.default_bounds(ce=True),
+             ['reference model mc/model.py states the documented meaning of each public call', 'pycdlib reads its own image here (independent readers: C03/C08/C09/C10)'] + ['alphabet sigma1 of mc/ops.py and the depth bounds listed in the evidence'])
